@@ -282,3 +282,25 @@ def dep_unit(module, unit_fn_name, src, dst, doc):
         getattr(m, unit_fn_name)(RenamedUnit(U, src, dst))
     unit.__doc__ = doc
     return unit
+
+
+def require_loop_state(fn, expected, rule):
+    """Side condition of the fold rule and of the generic-row rule, CHECKED on the real source: the loops of `fn` carry
+    no local state from one iteration to the next other than the names in `expected` ({ordinal: names}; the state the
+    unit's invariant speaks about / the state known to be harmless on the unchanged tree).  A loop that now carries a
+    further name (a counter, a seen-set, a previous-item variable) is outside what the rule proves: the unit is then
+    UNDECIDED (never a violation by itself - a violation needs a failing clause).  Call it at the END of the unit, so that
+    clauses that fail with a replayed input are reported first.  The scan is syntactic (loop_carried)."""
+    try:
+        lc = loop_carried(fn)
+    except Exception as e:         # source not available / not a plain function any more
+        raise Undecided("%s: cannot scan the loops of %s (%s)" % (rule, getattr(fn, "__qualname__", fn), e))
+    extra = []
+    for k, names in lc.items():
+        more = sorted(set(names) - set(expected.get(k, ())))
+        if more:
+            extra.append("loop %d carries %s" % (k, ", ".join(more)))
+    if extra:
+        raise Undecided("%s is not applicable to %s as it stands: %s (state carried between iterations that the invariant does not speak about)"
+                        % (rule, getattr(fn, "__qualname__", fn), "; ".join(extra)))
+    return lc
